@@ -453,7 +453,7 @@ static void shut_wr(Endpoint* ep) {
     sk.unlock();
 }
 
-static const uint64_t STALL_CAP = 2500 * 1000;
+static const uint64_t STALL_CAP = 3000 * 1000;
 // The staller waits until the partner is blocked in a call (its last syscall said EAGAIN; given up after 30 ms) and then does
 // nothing until that call has returned - the partner's timeout must end it.  STALL_CAP bounds the wait when it does not.
 static void stall_for_partner(Task* tk) {
@@ -598,7 +598,7 @@ static void lib_task(Task* tk) {
 static int64_t pick_timeout(vt::Rng& r) {
     int c = (int)r.below(20);
     if (c < 11) return -1;                         // none
-    if (c < 13) return 8 * 1000 * 1000;            // long: must behave like none within an execution
+    if (c < 13) return 20 * 1000 * 1000;           // long: must behave like none within an execution
     if (c < 19) return 500 + r.below(6000);        // short: really expires when the partner stalls
     return 0;
 }
@@ -711,7 +711,7 @@ static int run_exec(int ex, vt::Rng& r) {
         });
         ijh = photon::thread_enable_join(th);
     }
-    bool ok = vtp::wait_done(ws, 4 * 1000 * 1000, g_prim.c_str());
+    bool ok = vtp::wait_done(ws, 6 * 1000 * 1000, g_prim.c_str());
     istop = true;
     if (ijh) photon::thread_join(ijh);
     if (!ok) return 4;
@@ -790,7 +790,7 @@ static int run_batch(int ex, vt::Rng& r) {
     };
     ws.push_back(&burst);
     { vtp::GateGuard gg; for (auto w : ws) vtp::spawn_on(w, g_vc.vc[0]); for (auto& t : tasks) t->cx.th = t->w.th; }
-    if (!vtp::wait_done(ws, 4 * 1000 * 1000, g_prim.c_str())) return 4;
+    if (!vtp::wait_done(ws, 6 * 1000 * 1000, g_prim.c_str())) return 4;
     vtp::join_all(ws);
     {
         vt::Arr s, rc; for (int i = 0; i < 2 * nconn; i++) { s.i(g_flow[i].sent); rc.i(g_flow[i].rcvd); }
@@ -840,7 +840,7 @@ int main(int argc, char** argv) {
     wd.end();
     vt::close();
     rmdir(g_dir.c_str());
-    if (rc) _exit(rc);
+    if (rc) _exit(rc);      // a hung photon thread cannot be cleaned up
     g_vc.stop();
     photon::fini();
     return 0;
